@@ -220,6 +220,7 @@ func init() {
 				variants := []string{s}
 				if c == 0 {
 					variants = append(variants, `{"`+s+`}`, `{"`+s+`"}`) // switches the printer to raw form
+					variants = append(variants, s+`{"a":1}`, `{"a":1}`+s, s+`{"a":1}`+s)
 				}
 				for _, sv := range variants {
 					sv := sv
